@@ -9,7 +9,9 @@
 //   OP   ::= (ins C A NET ML ASN) | (rem C A NET ML ASN) | (drop C A)
 //          | (reset C A ((NET ML ASN)*))          -- the REAL TableManager::rpki_reset
 //          | (val NET PATH [POS]) | (iter F) | (show STATE NET PATH [POS]) | (showl STATE NET PATH [POS])
-//          showl = the same for a locally originated route (Source::local(), the speaker's global AS)
+//          | (showk STATE NET PATH [POS])
+//          showl / showk = the same for a locally originated route (Source::local() / Source::kernel(): the
+//          speaker's global AS is the origin of an empty path)
 //   case may also be (case LOCALASN GLOBALASN (ops OP*))
 //   NET  ::= (4 x<8 hex> LEN) | (6 x<32 hex> LEN)
 //   PATH ::= nopath | (path (T ASN*)*)            -- AS_PATH segments, T = segment type byte
@@ -101,7 +103,7 @@ fn vrp_of(t: &[Term]) -> Option<(packet::IpNet, u8, u32)> {
 }
 
 enum Op {
-    Show(bool, table::RpkiValidationState, packet::IpNet, Option<Vec<u8>>, usize),
+    Show(u8, table::RpkiValidationState, packet::IpNet, Option<Vec<u8>>, usize),
     Ins(u64, u64, packet::IpNet, u8, u32),
     Rem(u64, u64, packet::IpNet, u8, u32),
     Drop(u64, u64),
@@ -180,7 +182,7 @@ fn op_of(t: &Term) -> Option<Op> {
         }
         "val" if a.len() == 2 => Some(Op::Val(net_of(&a[0])?, path_of(&a[1])?, 1)),
         "val" if a.len() == 3 => Some(Op::Val(net_of(&a[0])?, path_of(&a[1])?, pos_of(&a[2])?)),
-        "show" | "showl" if a.len() == 3 || a.len() == 4 => {
+        "show" | "showl" | "showk" if a.len() == 3 || a.len() == 4 => {
             let st = match a[0].as_atom()? {
                 "valid" => table::RpkiValidationState::Valid,
                 "invalid" => table::RpkiValidationState::Invalid,
@@ -188,7 +190,7 @@ fn op_of(t: &Term) -> Option<Op> {
                 _ => return None,
             };
             let pos = if a.len() == 4 { pos_of(&a[3])? } else { 1 };
-            Some(Op::Show(h == "showl", st, net_of(&a[1])?, path_of(&a[2])?, pos))
+            Some(Op::Show(if h == "showl" { 1 } else if h == "showk" { 2 } else { 0 }, st, net_of(&a[1])?, path_of(&a[2])?, pos))
         }
         "iter" if a.len() == 1 => {
             let f = a[0].as_u64()?;
@@ -272,7 +274,11 @@ pub(super) fn run_case(line: &str) -> String {
             }
             Op::Show(local, st, net, path, pos) => {
                 // `showl`: a locally originated route (the add_path handler uses Source::local())
-                let src = if local { table::Source::local() } else { source.clone() };
+                let src = match local {
+                    1 => table::Source::local(),
+                    2 => table::Source::kernel(), // routes redistributed from the kernel
+                    _ => source.clone(),
+                };
                 obs.push(show(&tables, &src, st, &net, attrs_of(path, pos)))
             }
             Op::Val(net, path, pos) => {
